@@ -931,6 +931,8 @@ def _analyse_own(chk):
 
 def analyse(chk):
     _analyse_own(chk)
+    chk.guard(lambda c_: core.include_findings(c_, 'C11', files=['ciderpress/lib/mod_cider/model_utils.c'], rules=['grad-pairing'],
+                                               why='the spin-channel gradients of the C kernels must differentiate the factor with respect to their own channel'))
     chk.guard(lambda c_: core.include_findings(c_, 'C09', files=['ciderpress/dft/plans.py', 'ciderpress/dft/lcao_nldf_generator.py', 'ciderpress/dft/lcao_interpolation.py'], rules=['cache-alias'],
                                                why='a per-spin cache that aliases a reusable buffer lets one spin channel overwrite the other (spin symmetry)'))
     chk.guard(lambda c_: core.include_findings(c_, 'C10', files=['ciderpress/lib/mod_cider/model_utils.c'], rules=None,
